@@ -3,13 +3,15 @@ How many times does each thread call `stats_on_gvt`?
 
 Model of the part of the runtime that decides it, for a single node (`n_nodes = 1`, `no_mpi.c`):
 * the worker loop of `parallel_thread_run` (`src/parallel/parallel.c`): loop test
-  `termination_cant_end()`, a batch of 64 `process_msg()`, one `gvt_phase_run()` call whose non-zero
+  `termination_cant_end()`, a batch of 64 `process_msg()`, one `gvt_phase_run()` call whose non-negative
   result is handed to `termination_on_gvt` and `stats_on_gvt`;
 * `gvt_phase_run`, `gvt_node_phase_run`, `gvt_thread_phase_run` (`src/gvt/gvt.c`) with their shared
   counters `c_a c_b c_c c_d`, `gvt_nodes`, `total_msg_received`, and the timer test of thread 0;
 * `termination_on_gvt` / `RootsimStop` (`src/gvt/termination.c`) as far as `thr_to_end` and
   `nodes_to_end` are concerned;
-* the flush loop at the head of `gvt_msg_drain`, which completes a pending round and *discards* its value.
+* the flush loop at the head of `gvt_msg_drain`, which completes a pending round and, on the pinned tree,
+  *discards* its value (finding F6); on the repaired tree (`Cfg.fix6 = true`) it hands the value to
+  `stats_on_gvt` like the worker loop does.
 
 Everything else (event processing, the GVT value itself, the two extra drain rounds, which never reach
 `stats_on_gvt`) is abstracted: a thread "votes" when it receives its `voteAt`-th value, and calls
@@ -29,7 +31,7 @@ inductive Pc where
   | batch      -- test passed, at `VERIF_YIELD(VP_WORKER_LOOP)`: about to run 64 × `process_msg()`
   | gvtCall    -- at `VERIF_YIELD(VP_GVT_PHASE)` of the call in the worker loop
   | flushTop   -- in `gvt_msg_drain`: about to test `thread_phase != thread_phase_idle`
-  | flushCall  -- at `VERIF_YIELD(VP_GVT_PHASE)` of a call in the flush loop (value discarded)
+  | flushCall  -- at `VERIF_YIELD(VP_GVT_PHASE)` of a call in the flush loop (value discarded / recorded: `Cfg.fix6`)
   | barrier    -- reached `sync_thread_barrier()` in `gvt_msg_drain`
 deriving DecidableEq, Repr
 
@@ -37,9 +39,9 @@ structure Th where
   pc : Pc := .loopTop
   tphase : Nat := 0      -- `enum thread_phase`: 0 idle, 1 A, 2 B, 3 C, 4 D
   nphase : Nat := 0      -- `enum node_phase`: 0 redux_first .. 8 done
-  records : Nat := 0     -- calls of `stats_on_gvt` = non-zero values returned inside the worker loop
+  records : Nat := 0     -- calls of `stats_on_gvt`: values returned inside the worker loop (+ flush loop if `fix6`)
   batches : Nat := 0
-  discarded : Nat := 0   -- values returned to the flush loop and dropped
+  discarded : Nat := 0   -- values returned to the flush loop and dropped (always 0 if `fix6`)
 deriving DecidableEq, Repr
 
 structure Sh where
@@ -53,6 +55,11 @@ structure Sh where
   thrToEnd : Nat             -- `thr_to_end`
   timer : Nat := 1           -- `gvt_timer = timer_new()` in `gvt_global_init`
   clock : Nat := 1           -- the harness clock: one tick per `timer_new()` call
+  /-- ghost (never read by a transition): GVT rounds started by thread 0 (`gvt_nodes` raised) -/
+  started : Nat := 0
+  /-- ghost (never read by a transition): GVT rounds every thread has been through
+  (`gvt_nodes` lowered by the last thread leaving `node_done`) -/
+  completed : Nat := 0
 deriving DecidableEq, Repr
 
 structure Cfg where
@@ -60,9 +67,10 @@ structure Cfg where
   period : Nat               -- `global_config.gvt_period`
   stopBatch : Nat → Nat      -- thread `i` calls `RootsimStop()` in its `stopBatch i`-th batch (0: never)
   voteAt : Nat → Nat         -- `termination_on_gvt` of thread `i` votes at its `voteAt i`-th value (0: never)
-  /-- `false` = the pinned tree: the flush loop of `gvt_msg_drain` drops the value. `true` = the tree
-  with `repo_patches/f6_flush_round_record.diff`: the flush loop calls `stats_on_gvt` too. -/
-  flushRecords : Bool := false
+  /-- The variant of `gvt_msg_drain`. `false` = the pinned tree: the flush loop drops the value returned by
+  `gvt_phase_run()`. `true` = the repaired tree (`repo_patches/f6_flush_round_record.diff`):
+  `if(flushed_gvt >= 0.0) stats_on_gvt(flushed_gvt);` - only `stats_on_gvt`, not `termination_on_gvt`. -/
+  fix6 : Bool := false
 
 structure St where
   sh : Sh
@@ -108,11 +116,12 @@ def nodePhaseRun (cfg : Cfg) (sh : Sh) (th : Th) : Bool × Sh × Th :=
     else (true, { sh with cC := sh.cC - cfg.n }, { th with nphase := 8 })
   | 7 => if sh.cC ≠ 0 then (false, sh, th) else (true, sh, { th with nphase := 8 })
   | 8 =>
-    (false, { sh with cD := sh.cD - 1, gvtNodes := if sh.cD = 1 then sh.gvtNodes - 1 else sh.gvtNodes },
+    (false, { sh with cD := sh.cD - 1, gvtNodes := if sh.cD = 1 then sh.gvtNodes - 1 else sh.gvtNodes,
+                      completed := if sh.cD = 1 then sh.completed + 1 else sh.completed },
      { th with nphase := 0, tphase := 0 })
   | _ => (false, sh, th)
 
-/-- `gvt_phase_run` on thread `i`; the Boolean is "a (non-zero) GVT value was returned" -/
+/-- `gvt_phase_run` on thread `i`; the Boolean is "a GVT value (`>= 0`) was returned" -/
 def gvtPhaseRun (cfg : Cfg) (i : Nat) (sh : Sh) (th : Th) : Bool × Sh × Th :=
   if th.tphase ≠ 0 then nodePhaseRun cfg sh th
   else
@@ -121,7 +130,7 @@ def gvtPhaseRun (cfg : Cfg) (i : Nat) (sh : Sh) (th : Th) : Bool × Sh × Th :=
       let t := sh.clock + 1
       let sh1 := { sh with clock := t }
       if cfg.period < t - sh.timer ∧ sh.gvtNodes = 0 then
-        (false, { sh1 with timer := t, gvtNodes := sh.gvtNodes + 1 }, { th1 with tphase := 1 })
+        (false, { sh1 with timer := t, gvtNodes := sh.gvtNodes + 1, started := sh.started + 1 }, { th1 with tphase := 1 })
       else (false, sh1, th1)
     else (false, sh, th1)
 
@@ -154,8 +163,8 @@ def act (cfg : Cfg) (st : St) (i : Nat) : St :=
     | .flushCall =>
       match gvtPhaseRun cfg i st.sh th with
       | (v, sh', th') =>
-        { sh := sh', ths := st.ths.set i { th' with discarded := th'.discarded + (if v && !cfg.flushRecords then 1 else 0),
-                                                     records := th'.records + (if v && cfg.flushRecords then 1 else 0),
+        { sh := sh', ths := st.ths.set i { th' with discarded := th'.discarded + (if v && !cfg.fix6 then 1 else 0),
+                                                     records := th'.records + (if v && cfg.fix6 then 1 else 0),
                                                      pc := .flushTop } }
     | .barrier => st
 
@@ -181,7 +190,20 @@ def runHook (cfg : Cfg) (st : St) (sched : List Nat) : St := sched.foldl (grant 
 /-- every thread reaches its first `VERIF_YIELD(VP_WORKER_LOOP)` (or the barrier) on its own -/
 def initHook (cfg : Cfg) : St := (List.range cfg.n).foldl (settle cfg) (init cfg)
 
+/-- all threads have left the worker loop and the flush loop of `gvt_msg_drain` and stand at its barrier,
+which then releases them: `parallel_thread_run` returns on every thread -/
 def allDone (st : St) : Bool := st.ths.all (fun th => th.pc == .barrier)
+
+/-- **The execution returns**: under the fine-grained schedule `sched` every thread gets through the flush
+loop of `gvt_msg_drain` to the barrier. Executions that end in the shutdown deadlock F1 (an idle thread
+waits in the barrier for a thread that spins in a round the idle one never joins) do not satisfy it. -/
+def Returns (cfg : Cfg) (sched : List Nat) : Prop := allDone (runFine cfg (init cfg) sched) = true
+
+/-- the same at yield-point granularity (the schedules the harness replays on the real threads) -/
+def ReturnsHook (cfg : Cfg) (sched : List Nat) : Prop := allDone (runHook cfg (initHook cfg) sched) = true
+
+instance (cfg : Cfg) (sched : List Nat) : Decidable (Returns cfg sched) := by unfold Returns; infer_instance
+instance (cfg : Cfg) (sched : List Nat) : Decidable (ReturnsHook cfg sched) := by unfold ReturnsHook; infer_instance
 def recordCounts (st : St) : List Nat := st.ths.map (·.records)
 def sameCount (st : St) : Bool :=
   match st.ths with
